@@ -8,13 +8,13 @@ TEXT = ('bounded symbolic execution (irsym+z3): on every path the same particles
 
 def run(ctx):
     q = ctx.quick()
-    T = [('d1.h5.n3', D(1, 5, 3, 1), [-4, -1, 0, -2, 0, 0], 200, 'sibling sets and interaction batches cut at every possible group boundary (block sizes 1..4)'),
+    T = [('d1.h5.n3', D(1, 5, 3, 1), [-3, -1, 0, -2, 0, 0], 200, 'sibling sets and interaction batches cut at every possible group boundary (block sizes 1..4)'),
          ('d1.h3.n3.faces', D(1, 3, 3, 0), [-4, -1, 0, -1, 0, 0], 120, ''),
          ('d2.h3.n3', D(2, 3, 3, 1), [-4, -1, 0, -1, 0, 0], 240, ''),
          ('d2.h4.n2', D(2, 4, 2, 1), [-2, -1, 0, -1, 0, 0], 240, ''),
-         ('d3.h3.n2', D(3, 3, 2, 1), [-2, -1, 0, -1, 0, 0], 240, ''),
+         ('d3.h3.n2', D(3, 3, 2, 1), [1, -1, 0, -1, 0, 0], 240, ''),
          ('auto.d1.h4.n3', D(1, 4, 3, 1), [-100, -1, 0, -1, 0, 0], 200, 'automatic block size (Estimate) with 1, 2 or 16 hardware threads'),
-         ('auto.d3.h3.n2', D(3, 3, 2, 1), [-100, 0, 0, -1, 0, 0], 240, 'automatic block size, Dim 3')]
+         ('auto.d3.h2.n3', D(3, 2, 3, 1), [-100, -1, 0, -1, 0, 0], 240, 'automatic block size, Dim 3')]
     if not q:
         T += [('d1.h6.n4', D(1, 6, 4, 1), [-5, -1, 0, -2, 0, 0], 1800, ''), ('d2.h4.n3', D(2, 4, 3, 1), [-4, -1, 0, -1, 0, 0], 2400, ''),
               ('d2.h5.n2', D(2, 5, 2, 1), [-3, -1, 0, -1, 0, 0], 1800, ''), ('d3.h3.n3', D(3, 3, 3, 1), [-4, -1, 0, -1, 0, 0], 2400, ''),
